@@ -141,11 +141,6 @@ def class_of_direct(case):
     return None
 
 
-def shape_sexp(way, names=None):
-    pos, kws = way
-    return [[r for r in pos], [[k, r] for k, r in kws]]
-
-
 # ------------------------------------------------------------------------------------------------
 # frame-sensitive builtins in converted functions
 # ------------------------------------------------------------------------------------------------
@@ -301,7 +296,6 @@ def program_case(routes, prog, feature):
     with FrameSpy(routes.pb, tempfile.gettempdir()) as spy:
         for a in prog['args']:
             ro = run_callable(orig, mk_args(a))
-            n0 = len(spy.records)
             rc = run_callable(conv, mk_args(a))
             results.append({'args': a, 'original': ro, 'converted': rc})
     bad = [r for r in results if r['original'] != r['converted']]
@@ -601,6 +595,7 @@ def _check(run, routes, only_case):
     outcomes = {}
     per_builtin = {}
     failing_direct = []
+    sampled = set()
     nrandom = 6 if quick else 60
     for b in supported:
         W = V.ways(b, run.tier)
@@ -633,8 +628,10 @@ def _check(run, routes, only_case):
                     if diff is not None:
                         failing_direct.append(case)
                         fail('substitute of %s differs from the builtin in %s (%s)' % (b, diff, via), case, class_of_direct(case))
-                    if len(run.samples) < 3 and t1['outcome'][0] == 'lazy' and way[1] and via == 'overload_of':
-                        run.sample({'case': case, 'builtin_did': V.tr_json(t1)})
+                    if len(run.samples) < 3 and b not in sampled and way[1] and via == 'overload_of' and diff is None \
+                            and t1['outcome'][0] in ('lazy', 'value') and t1['log']:
+                        sampled.add(b)
+                        run.sample({'case': case, 'builtin_and_substitute_did': V.tr_json(t1)})
         per_builtin[b] = nb
     run.cov['direct_cases_per_builtin'] = per_builtin
     run.cov['direct_outcomes_of_builtin'] = dict(sorted(outcomes.items(), key=lambda x: -x[1]))
@@ -693,8 +690,9 @@ def _check(run, routes, only_case):
             st[1] += 1
             case = {'kind': 'program', 'program': prog, 'feature': feature}
             fail(what, dict(case, observed=det), class_of_program(prog))
-        elif len(run.samples) < 5 and len(prog['nest']) == 2 and prog['kind'] == 'super':
-            run.sample({'program': prog['src'], 'results': det})
+        elif len(run.samples) < 5 and len(prog['nest']) == 2 and prog['kind'] not in sampled and prog['kind'] in ('super', 'globals'):
+            sampled.add(prog['kind'])
+            run.sample({'program': prog['src'], 'feature': feature, 'results': det})
     run.cov['frame_programs_by_kind@depth [run, differing]'] = by_kind_depth
 
     # ---------------- 3. correspondence model <-> implementation ----------------
